@@ -262,26 +262,9 @@ func (v *Value) GetMember(member Value) (*Cell, error) {
 		}
 
 		if index >= len(arr) {
-			// TODO sparse arrays
-			// don't fill up to enormous numbers, just bail
-			if index > 1024*1024 {
-				return nil, fmt.Errorf("index too large to auto-fill array")
-			}
-
-			// fill the array with empty cells up to the index
-			var lastCell *Cell
-			for i := len(arr); i <= index; i++ {
-				lastCell = NewCell(NewValue(nil))
-				arr = append(arr, lastCell)
-			}
-			v.Array = arr
-
-			// make the last cell a spec object
-			lastCell.Value.ParentObj = v
-			fIndex := float64(index)
-			lastCell.Value.Num = &fIndex
-
-			return lastCell, nil
+			// past the end. reading must not change the array, it's only filled up
+			// to the index when the member is assigned to, see SetMember
+			return nil, nil
 		}
 		return arr[index], nil
 	case ValueObj:
@@ -325,6 +308,24 @@ func (v *Value) SetMember(member Value, cell *Cell) (*Cell, error) {
 		if err != nil {
 			return nil, err
 		}
+
+		if item == nil {
+			// past the end of the array
+			index := int(*member.Num)
+
+			// TODO sparse arrays
+			// don't fill up to enormous numbers, just bail
+			if index > 1024*1024 {
+				return nil, fmt.Errorf("index too large to auto-fill array")
+			}
+
+			// fill the array with empty cells up to the index
+			for i := len(v.Array); i <= index; i++ {
+				item = NewCell(NewValue(nil))
+				v.Array = append(v.Array, item)
+			}
+		}
+
 		item.Value = cell.Value
 		return item, nil
 	case ValueObj:
